@@ -1,7 +1,7 @@
 (* C07 - a rule's outcome is independent of unrelated rules in the set:
    property theorems only (proved in Cond/IndependenceProofs.v, SemProofs.v). *)
 From Coq Require Import List ZArith Bool.
-From YV Require Import Cond.Syntax Cond.Sem Cond.Rename Cond.SemProofs Cond.Independence Cond.IndependenceProofs
+From YV Require Import Cond.Syntax Cond.Sem Cond.Rename Cond.SemProofs Cond.Quirks Cond.QuirksProofs Cond.Independence Cond.IndependenceProofs
   Gen.PatternIdentity Cond.IdentityShape.
 Import ListNotations.
 
@@ -9,10 +9,10 @@ Import ListNotations.
    the rules r refers to, and every list of rules compiled before (S1) and
    after (S2) - sharing any of r's patterns or none - the verdict of r and
    the matches reported for each of its patterns are those of r compiled
-   alone.  (Documented meaning of conditions: e_fast = false.) *)
+   alone. *)
 Theorem independence : forall M data globals others S1 r S2,
-  verdict_in M data globals others false (S1 ++ r :: S2) (length S1)
-  = verdict_in M data globals others false [r] 0 /\
+  verdict_in M data globals others (S1 ++ r :: S2) (length S1)
+  = verdict_in M data globals others [r] 0 /\
   forall i, matches_in M data (S1 ++ r :: S2) (length S1) i = matches_in M data [r] 0 i.
 Proof. exact IndependenceProofs.independence. Qed.
 Print Assumptions independence.
@@ -47,17 +47,11 @@ Theorem id_renaming_invariance : forall f e en en',
 Proof. exact SemProofs.id_renaming_invariance. Qed.
 Print Assumptions id_renaming_invariance.
 
-(* the `N of` fast path of the implementation equals the loop for N > 0 ... *)
-Theorem of_fast_path_equiv_loop : forall fast qv set ak items z,
-  qv = VInt z -> (0 < z)%Z -> v_of fast QExpr qv set ak items = v_of false QExpr qv set ak items.
-Proof. exact SemProofs.of_fast_path_equiv_loop. Qed.
+(* the implementation evaluates `N of <set>` with pat_range_match when the
+   pattern ids of the set are consecutive - which other rules change - and
+   with a loop otherwise: both agree for every N (refuted for N <= 0 before
+   commit bf5119e4, finding 6), so the evaluator used above covers both *)
+Theorem of_fast_path_equiv_loop : forall z ms,
+  v_of QExpr (VInt z) (map (fun m => VBool (matched m)) ms) = VBool (pat_range_match z ms).
+Proof. exact QuirksProofs.of_fast_path_equiv_loop. Qed.
 Print Assumptions of_fast_path_equiv_loop.
-
-(* ... and with it switched on for N <= 0, independence is false (finding 6):
-   the witness is replayed on the implementation by the harness *)
-Theorem independence_fast_refuted :
-  exists M data S1 r,
-    verdict_in M data (fun _ => VUndef) (fun _ => false) true (S1 ++ [r]) (length S1)
-    <> verdict_in M data (fun _ => VUndef) (fun _ => false) true [r] 0.
-Proof. exact IndependenceProofs.independence_fast_refuted. Qed.
-Print Assumptions independence_fast_refuted.
